@@ -368,17 +368,6 @@ pub fn determine_tls_version(
         return TlsVersion::V1_3;
     }
 
-    // Parse legacy version from ClientHello
-    // Note: SSL 2.0 is not supported by tls-parser (too legacy/vulnerable)
-    match *legacy_version {
-        tls_parser::TlsVersion::Tls13 => TlsVersion::V1_3,
-        tls_parser::TlsVersion::Tls12 => TlsVersion::V1_2,
-        tls_parser::TlsVersion::Tls11 => TlsVersion::V1_1,
-        tls_parser::TlsVersion::Tls10 => TlsVersion::V1_0,
-        tls_parser::TlsVersion::Ssl30 => TlsVersion::Ssl3_0,
-        other => {
-            debug!("Unknown/unsupported TLS version {:?}", legacy_version);
-            TlsVersion::Unknown(other.0)
-        }
-    }
+    // Legacy version from ClientHello: the same code table as for supported_versions entries
+    tls_version_from_code(legacy_version.0)
 }
